@@ -26,6 +26,16 @@ func runC13(c *Ctx) {
 		st := rc.Underlying().(*types.Struct)
 		info := clone.Info()
 		assigned := map[string]bool{}
+		// the clone is the variable the function returns; the original is its parameter
+		var dstObj types.Object
+		ast.Inspect(clone.Decl.Body, func(n ast.Node) bool {
+			if r, ok := n.(*ast.ReturnStmt); ok && len(r.Results) == 1 {
+				if o := objOf(info, r.Results[0]); o != nil {
+					dstObj = o
+				}
+			}
+			return true
+		})
 		ast.Inspect(clone.Decl.Body, func(n ast.Node) bool {
 			switch x := n.(type) {
 			case *ast.AssignStmt:
@@ -35,7 +45,7 @@ func runC13(c *Ctx) {
 						continue
 					}
 					if rf := selField(info, x.Rhs[i]); rf == lf {
-						if o := objOf(info, l.(*ast.SelectorExpr).X); o != nil && o.Name() == "dst" {
+						if o := objOf(info, l.(*ast.SelectorExpr).X); o != nil && o == dstObj {
 							assigned[lf.Name()] = true
 						}
 					}
